@@ -80,6 +80,7 @@ fn main() {
             laws::record(id, &args[3], &args[4], args.get(5).and_then(|s| s.parse().ok()).unwrap_or(5)),
         ("record", "C09") => textrec::record_c09(&args[3], args.get(4).and_then(|s| s.parse().ok()).unwrap_or(1000), &args[5.min(args.len())..]),
         ("record", "C01") => textrec::record_c01(&args[3], args[4].parse().unwrap(), args.get(5).and_then(|s| s.parse().ok()).unwrap_or(100)),
+        ("record", "C03X") => scanrec::record_f1(&args[3], &args[4], args.get(5).and_then(|s| s.parse().ok()).unwrap_or(6)),
         ("record", "C03") => scanrec::record(&args[3], &args[4], args.get(5).and_then(|s| s.parse().ok()).unwrap_or(6)),
         ("record", "pipeline") => pipeline::record(&args[3], args.get(4).and_then(|s| s.parse().ok()).unwrap_or(100), util::env_u64("VERIF_SEED", 1)),
         _ => { eprintln!("usage: asca-conform tables <dir> | replay <id> | record <id> <out>"); std::process::exit(2); }
